@@ -9,6 +9,7 @@
 #include <nix/Dimensions.hpp>
 
 #include <cmath>
+#include <algorithm>
 #include <nix/DataArray.hpp>
 #include <nix/util/util.hpp>
 #include <nix/Exception.hpp>
@@ -189,7 +190,7 @@ void SampledDimension::unit(const std::string &unit) {
 
 
 void SampledDimension::samplingInterval(double interval) {
-    if (interval <= 0.0) {
+    if (!(interval > 0.0)) {   // also refuses NaN
         throw std::runtime_error("SampledDimenion::samplingInterval: Sampling intervals must be larger than 0.0!");
     }
     backend()->samplingInterval(interval);
@@ -639,7 +640,9 @@ void RangeDimension::unit(const std::string &unit) {
 
 
 void RangeDimension::ticks(const std::vector<double> &ticks) {
-    if (!std::is_sorted(ticks.begin(), ticks.end())) {
+    // ascending means every tick is <= its successor; std::is_sorted is blind to NaN
+    if (std::adjacent_find(ticks.begin(), ticks.end(),
+                           [](double a, double b) { return !(a <= b); }) != ticks.end()) {
         std::string caller = "Range::ticks()";
         throw UnsortedTicks(caller);
     }
